@@ -19,8 +19,10 @@ Record c18case := mkC18 {
 
 Definition scan_last_of (c : c18case) (j : nat) (l : Z) : bool := nth j (x_last c) (-1) =? l.
 
+Definition finished_of (c : c18case) (j : nat) (l : Z) : bool := nth j (x_last c) l <? l.
+
 Definition trace_of (c : c18case) : list ev :=
-  if x_byline c then byline_abort (scan_last_of c) (x_n c) (x_i c) (x_l c) else serial_abort (scan_last_of c) (x_i c) (x_l c).
+  if x_byline c then byline_abort (scan_last_of c) (finished_of c) (x_n c) (x_i c) (x_l c) else serial_abort (scan_last_of c) (x_i c) (x_l c).
 
 Definition c18_agree (c : c18case) : bool :=
   let t := trace_of c in
@@ -35,7 +37,9 @@ Definition c18_agree (c : c18case) : bool :=
 Definition c18_spec (c : c18case) : bool :=
   x_raised c && negb (x_status_complete c) && x_stores_unchanged c && x_next_run_ok c
   && forallb (fun jm : nat * c18member => let (j, m) := jm in
-        if Nat.ltb j (x_i c) then (if x_byline c then b_dir m else b_dir m && opt_beq Bool.eqb (b_completed m) (Some true))
+        if negb (Nat.eqb j (x_i c)) && x_byline c && finished_of c j (if Nat.leb j (x_i c) then x_l c else x_l c - 1)
+        then b_dir m && opt_beq Bool.eqb (b_completed m) (Some true)          (* breadth-first: a member that finished on an earlier line keeps its complete result *)
+        else if Nat.ltb j (x_i c) then (if x_byline c then b_dir m else b_dir m && opt_beq Bool.eqb (b_completed m) (Some true))
         else if Nat.eqb j (x_i c) then b_dir m && existsb (Z.eqb (x_l c)) (b_error_lines m) && opt_beq Bool.eqb (b_completed m) (Some false)
         else (if x_byline c then b_dir m else true))
      (combine (seq 0 (x_n c)) (x_members c)).
